@@ -65,7 +65,7 @@ func c18MidLetters(r *vk.Rng, s string) string {
 		i := pos[r.Intn(len(pos))]
 		c := c18Letters[r.Intn(len(c18Letters))]
 		if c == b[i] {
-			c = c18Letters[(indexByte(c18Letters, c)+1)%len(c18Letters)]
+			c = c18Letters[(c18IndexByte(c18Letters, c)+1)%len(c18Letters)]
 		}
 		b[i] = c
 	}
@@ -91,7 +91,7 @@ func c18SwapLetters(r *vk.Rng, s string) string {
 	return string(b)
 }
 
-func indexByte(s string, c byte) int {
+func c18IndexByte(s string, c byte) int {
 	for i := 0; i < len(s); i++ {
 		if s[i] == c {
 			return i
